@@ -155,6 +155,76 @@ def fn_tokens(func):
 
 # --------------------------------------------------------------------------- spec -> real combinators
 
+SET_STYLES = ["setgen", "setiter", "settuple", "setmutated"]
+LIST_STYLES = ["list", "gen", "iter", "tuple", "sharedlist:before", "sharedlist:after", "sharedlist:same",
+               "mutated:append", "mutated:clear", "mutated:pop", "mutated:reverse", "mutated:insert"]
+
+
+def own_list(cls, kids, style):
+    """Sequence / Choice through their CONSTRUCTOR, by the routes a caller can take with the operand collection.
+    Whatever the route, the combinator denotes the operands it was CONSTRUCTED from (it owns its operand list):
+      gen / iter / tuple   a generator expression, a one-shot iterator, a tuple (then evaluated more than once)
+      sharedlist:*         ONE list object handed to two combinators, one of which is then extended with | or +
+                           (before / after: the other class, built before / after this one; same: the same class)
+      mutated:*            the caller mutates its list after construction (append / clear / pop / reverse / insert)"""
+    kids = list(kids)
+    extra = Char("z")
+    if style == "gen":
+        return cls(k for k in kids)
+    if style == "iter":
+        return cls(iter(kids))
+    if style == "tuple":
+        return cls(tuple(kids))
+    if style.startswith("sharedlist:"):
+        other_cls = Choice if cls is Sequence else Sequence
+        l = list(kids)
+        how = style.split(":")[1]
+        if how == "before":
+            o = other_cls(l)
+            o = (o | extra) if other_cls is Choice else (o + extra)
+            return cls(l)
+        node = cls(l)
+        o = other_cls(l) if how == "after" else cls(l)
+        o = (o | extra) if type(o) is Choice else (o + extra)
+        return node
+    if style.startswith("mutated:"):
+        l = list(kids)
+        node = cls(l)
+        how = style.split(":")[1]
+        if how == "append":
+            l.append(extra)
+        elif how == "clear":
+            del l[:]
+        elif how == "pop":
+            if l:
+                l.pop()
+        elif how == "reverse":
+            l.reverse()
+            l.append(extra)
+        elif how == "insert":
+            l.insert(0, extra)
+        return node
+    return cls(kids)
+
+
+def reset_children(node, operands, style):
+    """the public Node.set_children on a built combinator, from a one-shot iterator / generator / tuple of the SAME
+    operands (Until, FollowedBy, NotFollowedBy, KeepLeft, KeepRight, Lift, Forward): it denotes what it did before"""
+    operands = list(operands)
+    if style == "setgen":
+        node.set_children(c for c in operands)
+    elif style == "setiter":
+        node.set_children(iter(operands))
+    elif style == "settuple":
+        node.set_children(tuple(operands))
+    elif style == "setmutated":
+        l = list(operands)
+        node.set_children(l)
+        l.append(Char("z"))
+        l.reverse()
+    return node
+
+
 def build(spec, fwd, pool=None):
     """spec (JSON-able nested lists) -> real parser objects, through the public API.
     pool (a dict) = draw OBJECTS with repetition: every further occurrence of an equal sub-spec is the SAME Python object
@@ -194,7 +264,7 @@ def _build(spec, fwd, pool):
             for c in kids[2:]:
                 p = p + c
             return p
-        return Sequence(kids)
+        return own_list(Sequence, kids, spec[2])
     if k == "cho":
         kids = [build(s, fwd, pool) for s in spec[1]]
         if spec[2] == "|" and len(kids) >= 2 and not isinstance(kids[0], Choice):
@@ -202,9 +272,14 @@ def _build(spec, fwd, pool):
             for c in kids[2:]:
                 p = p | c
             return p
-        return Choice(kids)
+        return own_list(Choice, kids, spec[2])
     if k == "many":
         return Many(build(spec[1], fwd, pool), lower=spec[2])
+    if k in ("until", "fb", "nfb", "kl", "kr") and len(spec) > 3:
+        a, b = build(spec[1], fwd, pool), build(spec[2], fwd, pool)
+        node = {"until": lambda: a.until(b), "fb": lambda: a & b, "nfb": lambda: a / b, "kl": lambda: a << b,
+                "kr": lambda: a >> b}[k]()
+        return reset_children(node, [a, b], spec[3])
     if k == "until":
         return build(spec[1], fwd, pool).until(build(spec[2], fwd, pool))
     if k == "opt":
@@ -221,6 +296,8 @@ def _build(spec, fwd, pool):
         return build(spec[2], fwd, pool).map(fn_map(spec[1]))
     if k == "lift":
         p = Lift(fn_lift(spec[1]))
+        if len(spec) > 3:
+            return reset_children(p, [build(s, fwd, pool) for s in spec[2]], spec[3])
         for s in spec[2]:
             p = p * build(s, fwd, pool)
         return p
@@ -241,8 +318,12 @@ def build_grammar(g, share=False):
     """g = {"rules": [spec…], "top": spec} -> (top parser, [Forward…]); share: one object pool for the whole grammar"""
     pool = {} if share else None
     fwd = [Forward() for _ in g["rules"]]
-    for f, s in zip(fwd, g["rules"]):
-        f <= build(s, fwd, pool)
+    for j, (f, s) in enumerate(zip(fwd, g["rules"])):
+        body = build(s, fwd, pool)
+        f <= body
+        style = (g.get("fwd_styles") or [])[j:j + 1]
+        if style and style[0] != "<=":
+            reset_children(f, [body], style[0])
     top = build(g["top"], fwd, pool)
     if share:
         build_grammar.hits = pool.get("#hits", 0)
@@ -868,19 +949,23 @@ class Gen(object):
                 kids.append(c)
                 g = g or consuming(c)
             if k == "seq":
-                return ["seq", kids, r.choice(["+", "list"])]
-            return ["lift", r.choice([["pair"], ["pair"], self.fn()]), kids]
+                return ["seq", kids, r.choice(["+", "+", "list"] + LIST_STYLES[1:] if r.random() < 0.6 else ["+", "list"])]
+            l = ["lift", r.choice([["pair"], ["pair"], self.fn()]), kids]
+            return l + [r.choice(SET_STYLES)] if r.random() < 0.2 else l
         if k == "cho":
-            return ["cho", [self.term(d - 1, guarded) for _ in range(r.choice([0, 1, 2, 2, 3]))], r.choice(["|", "list"])]
+            return ["cho", [self.term(d - 1, guarded) for _ in range(r.choice([0, 1, 2, 2, 3]))],
+                    r.choice(["|", "|", "list"] + LIST_STYLES[1:] if r.random() < 0.6 else ["|", "list"])]
         if k == "many":
             return ["many", self.consuming_term(d - 1, guarded), r.choice([0, 0, 1, 1, 2])]
         if k == "until":
-            return ["until", self.consuming_term(d - 1, guarded), self.term(d - 1, guarded)]
+            u = ["until", self.consuming_term(d - 1, guarded), self.term(d - 1, guarded)]
+            return u + [r.choice(SET_STYLES)] if r.random() < 0.2 else u
         if k == "opt":
             return ["opt", self.term(d - 1, guarded), r.choice([None, None] + VALS)]
         if k in ("fb", "nfb", "kl", "kr"):
             a = self.term(d - 1, guarded)
-            return [k, a, self.term(d - 1, guarded or consuming(a))]
+            n = [k, a, self.term(d - 1, guarded or consuming(a))]
+            return n + [r.choice(SET_STYLES)] if r.random() < 0.2 else n
         if k == "map":
             return ["map", self.fn(), self.term(d - 1, guarded)]
         if k == "wrap":
@@ -947,7 +1032,10 @@ def gen_grammar(rng, depth):
     nrules = rng.choice([0, 0, 1, 2])
     g = Gen(rng, nrules, tags=rng.random() < 0.2, raises=rng.random() < 0.15)
     rules = [g.term(depth - 1, False) for _ in range(nrules)]
-    return {"rules": rules, "top": g.term(depth, False)}
+    out = {"rules": rules, "top": g.term(depth, False)}
+    if nrules and rng.random() < 0.4:
+        out["fwd_styles"] = [rng.choice(["<="] + SET_STYLES) for _ in range(nrules)]
+    return out
 
 
 def gen_inputs(rng, term, rules, n):
@@ -1013,6 +1101,8 @@ def check_grammar(chk, g, inputs, cases, impl_lines, model_lines):
         chk.count("structure:differs")
         chk.failure("the built objects read back as  %s  — the grammar is  %s  (one child per operand occurrence%s)" % (
             rb, rtok + " // " + ttok, "; %d operands are objects used before" % hits if hits else ""), case0)
+    for m in set(re.findall(r'"((?:gen|iter|tuple|sharedlist:\w+|mutated:\w+|set\w+))"', json.dumps(g))):
+        chk.count("route:" + m)
     if hits:
         chk.count("grammar:with-shared-objects")
         chk.count("grammar:shared-occurrences", hits)
@@ -1053,6 +1143,16 @@ def check_grammar(chk, g, inputs, cases, impl_lines, model_lines):
                 elif tagged:
                     finding = "tag-stack-not-restored"
             chk.failure("PEG semantics gives %s, the combinators give %s on input %r" % (want, summary, s), case, finding)
+    # repeated evaluation: the second and third evaluation of the same grammar on the same input equal the first
+    first = dict((c["input"], l) for c, l in zip(cases[-len(inputs):], impl_lines[-len(inputs):])) if inputs else {}
+    for s in inputs[:3]:
+        for n in (2, 3):
+            again = run_impl(top, s)[0]
+            chk.count("re-evaluation:same" if again == first.get(s) else "re-evaluation:DIFFERS")
+            if s in first and again != first[s]:
+                chk.failure("evaluation #%d of the same grammar object on %r gives %s, the first evaluation gave %s" % (
+                    n, s, again, first[s]), {"kind": "term", "grammar": g, "input": s, "history": list(inputs) + [s] * (n - 2)})
+                break
     return term, rules
 
 
@@ -1346,7 +1446,8 @@ class OpGen(object):
         if k in ("Sequence", "Choice"):
             n = r.randint(1, 3)
             kids = [self.expr(d - 1, cons and (k == "Choice" or i == 0))[0] for i in range(n)]
-            return "%s([%s])" % (k, ", ".join(kids)), 20
+            form = r.choice(["%s([%s])", "%s([%s])", "%s(iter([%s]))", "%s((%s,))", "%s(c for c in [%s])"])
+            return form % (k, ", ".join(kids)), 20
         if k == "Lift":
             n = r.randint(1, 3)
             s = "Lift(G%d)" % r.randrange(len(OP_FNS) + 1)
@@ -1379,7 +1480,12 @@ def op_spec(node):
         if f.id == "Wrapper":
             return ["Wrapper", op_spec(node.args[0])]
         if f.id in ("Sequence", "Choice"):
-            return [f.id, [op_spec(e) for e in node.args[0].elts]]
+            arg = node.args[0]
+            if isinstance(arg, _ast.Call) and getattr(arg.func, "id", None) == "iter":
+                arg = arg.args[0]                                  # iter([...])
+            if isinstance(arg, _ast.GeneratorExp):
+                arg = arg.generators[0].iter                       # c for c in [...]
+            return [f.id, [op_spec(e) for e in arg.elts]]        # a list or a tuple display
         if f.id == "Lift":
             return ["Lift", node.args[0].id]
     raise ValueError("expression form outside the generator: %s" % _ast.dump(node))
@@ -1431,7 +1537,8 @@ OP_KINDS = {"leaf", "%", "bin", ".map", ".sep_by", ".until", "Many", "Opt", "Wra
 
 def op_env(leaves):
     """fresh objects for one evaluation (Sequence.__add__ / Choice.__or__ / Lift.__mul__ mutate their left operand)"""
-    env = {"Many": Many, "Opt": Opt, "Wrapper": Wrapper, "Sequence": Sequence, "Choice": Choice, "Lift": Lift, "EOF": P.EOF}
+    env = {"Many": Many, "Opt": Opt, "Wrapper": Wrapper, "Sequence": Sequence, "Choice": Choice, "Lift": Lift, "EOF": P.EOF,
+           "iter": iter}
     for i, l in enumerate(leaves):
         env["L%d" % i] = build(l, [])
     for i, f in enumerate(OP_FNS):
@@ -1731,6 +1838,12 @@ def run(chk):
                 "sampled derivations of the term, their one-edit neighbours, and random strings up to length 6; "
                 "non-trivial = process() succeeded, distinct = (term, rules, input) not seen before" % n_inputs)
     chk.assumptions = [
+        "a combinator OWNS its operand list: Sequence / Choice are also constructed from a generator expression, a one-shot "
+        "iterator, a tuple, from ONE list object handed to two combinators one of which is then extended with | or +, and from "
+        "a list the caller mutates after construction; Until / FollowedBy / NotFollowedBy / KeepLeft / KeepRight / Lift / "
+        "Forward also get their operands through the public set_children from such collections; the model grammar is the one "
+        "denoted at construction time, and every grammar is evaluated more than once (all inputs in turn, the first three "
+        "inputs three times: later evaluations must equal the first)",
         "object sharing is invisible to the semantics: a model term is a TREE OF OCCURRENCES (no sharing), the identity of the "
         "Python parser objects does not matter; this is tied, not assumed — both the combinators and the operators stream draw "
         "leaf and sub-term OBJECTS from a small pool with repetition (same object 2-4 times, same and different levels), read "
